@@ -13,14 +13,29 @@
      fix_closed_rec : BinaryServerProtocol.ProcessLockResultCommand does not forward to itself when the closed
                       connection is still the one registered under its client id;
      fix_text_closed : TextServerProtocol.ProcessLockResultCommand returns at once on a closed connection instead of
-                      pushing the result into lockWaiter. *)
+                      pushing the result into lockWaiter;
+     chk_addproxy : ProxyServerProtocol.ProcessLockResultCommandLocked re-points the proxy to clients[clientId] only
+                      when that connection accepted it (AddProxy returned nil, i.e. it is not closed).
+
+   Databases: only database 0 exists (the lock engine model is one LockDB).  A command carries its DbId (`xcmd`);
+   ProcessCommad / ProcessParse answer RESULT_UNKNOWN_DB without entering the engine for DbId 0xff and for an UNLOCK
+   naming a database that does not exist (`db_missing`).  Outside the modelled fragment (`modelled`, such actions are
+   no-ops and are never generated): a LOCK for a database 1..254 (it would create one), any DbId but 0 on a text
+   connection (SELECT). *)
 From Coq Require Import String.
 From Slock Require Import Engine.Types Engine.Queues Engine.Timers Engine.Engine Engine.Engine2.
 Open Scope N_scope.
 
 Inductive kind := KBin | KText.
 
-Record cfg := mkCfg { fix_will_lock : bool; fix_will_unlock : bool; fix_closed_rec : bool; fix_text_closed : bool }.
+Record cfg := mkCfg { fix_will_lock : bool; fix_will_unlock : bool; fix_closed_rec : bool; fix_text_closed : bool;
+                      chk_addproxy : bool }.
+
+(* a LOCK / UNLOCK command together with the DbId it names *)
+Record xcmd := mkX { x_db : N; x_cmd : cmd }.
+Definition R_UNKNOWN_DB : N := 3.
+Definition db_missing (x : xcmd) : bool :=
+  (x_db x =? 255) || (negb (x_db x =? 0) && negb (c_lock (x_cmd x))).
 
 (* per-connection fields written only by open / INIT / Close *)
 Record connrec := mkConn {
@@ -39,7 +54,7 @@ Record rstate := mkRs {
 
 Definition LOCKWAITER_CAP : N := 4.
 
-Definition wcmd := (bool * cmd)%type.   (* (still WILL-typed?, command) *)
+Definition wcmd := (bool * xcmd)%type.   (* (still WILL-typed?, command) *)
 
 Record cstate := mkCs {
   cs_db : db;
@@ -47,12 +62,13 @@ Record cstate := mkCs {
   cs_clients : amap N;               (* SLock.clients : client id -> connection *)
   cs_wills : amap (list wcmd);       (* willCommands, registration order *)
   cs_rs : rstate;
+  cs_ever : amap (list N);           (* ghost: the client ids each connection has announced (accepted INITs) *)
   cs_dead : bool;                    (* the process died (unbounded recursion) *)
   cs_stuck : list N                  (* connections whose closing goroutine is blocked on lockWaiter *)
 }.
 
 Definition init_cstate (t0 : Z) (aoft : N) : cstate :=
-  mkCs (init_db t0 aoft) [] [] [] (mkRs [] [] []) false [].
+  mkCs (init_db t0 aoft) [] [] [] (mkRs [] [] []) [] false [].
 
 Record rep := mkRep { rp_req : N; rp_res : N; rp_lc : N; rp_lrc : N; rp_lockid : N }.
 
@@ -62,9 +78,10 @@ Inductive cevent :=
 | CSwallowed (c : N) (r : rep)        (* pushed into the lockWaiter of a closing text connection; nobody reads it *)
 | CInitOk (c inittype : N)
 | CWillOk (c : N)                     (* text "+OK" after a will registration *)
-| CEngine (c : N) (will : bool) (cm : cmd)   (* ghost: db.Lock / db.UnLock entered on behalf of c *)
-| CRequeued (c : N) (cm : cmd)        (* ghost: Close -> ProcessCommad pushed a WILL-typed command back *)
-| CRegistered (c : N) (cm : cmd)      (* ghost: a will command was accepted into the will queue of c *)
+| CEngine (c : N) (will : bool) (cm : xcmd)  (* ghost: db.Lock / db.UnLock entered on behalf of c *)
+| CNoDb (c : N) (will : bool) (cm : xcmd)    (* ghost: the LOCK / UNLOCK case answered RESULT_UNKNOWN_DB for c; no engine call *)
+| CRequeued (c : N) (cm : xcmd)       (* ghost: Close -> ProcessCommad pushed a WILL-typed command back *)
+| CRegistered (c : N) (cm : xcmd)     (* ghost: a will command was accepted into the will queue of c *)
 | CCrash (c : N)                      (* unbounded recursion in ProcessLockResultCommand of closed connection c *)
 | CBlocked (c : N)                    (* Close of c blocks forever on lockWaiter <- result *)
 | CLoopFuel.
@@ -77,6 +94,7 @@ Definition conn_of (cs : amap connrec) (c : N) : connrec :=
 Definition is_open (cs : amap connrec) (c : N) : bool :=
   match aget cs c with Some k => k_open k | None => false end.
 Definition getN (m : amap N) (c : N) : N := match aget m c with Some v => v | None => 0 end.
+Definition evr (m : amap (list N)) (c : N) : list N := match aget m c with Some l => l | None => [] end.
 
 Definition set_target (rs : rstate) (p : N) (t : option N) : rstate :=
   mkRs (aset (r_target rs) p t) (r_await rs) (r_chan rs).
@@ -134,7 +152,8 @@ Definition async_result (cf : cfg) (cs : amap connrec) (clients : amap N) (rs : 
   | _ =>
       match aget clients (k_cid (conn_of cs p)) with
       | Some c' =>
-          let rs' := if is_open cs c' then set_target rs p (Some c') else rs in   (* AddProxy fails on a closed one *)
+          (* AddProxy fails on a closed connection; the assignment is guarded by its result (chk_addproxy) *)
+          let rs' := if is_open cs c' || negb (chk_addproxy cf) then set_target rs p (Some c') else rs in
           locked_result cf cs clients rs' c' p r
       | None => (rs, [CDropped p r], OOk)
       end
@@ -172,25 +191,36 @@ Fixpoint route (cf : cfg) (cs : amap connrec) (clients : amap N) (rs : rstate) (
 
 (* ------------------------------------------------------------------ one db.Lock / db.UnLock call by object c *)
 Definition set_db (st : cstate) (d : db) : cstate :=
-  mkCs d (cs_conns st) (cs_clients st) (cs_wills st) (cs_rs st) (cs_dead st) (cs_stuck st).
+  mkCs d (cs_conns st) (cs_clients st) (cs_wills st) (cs_rs st) (cs_ever st) (cs_dead st) (cs_stuck st).
 Definition set_rs (st : cstate) (rs : rstate) : cstate :=
-  mkCs (cs_db st) (cs_conns st) (cs_clients st) (cs_wills st) rs (cs_dead st) (cs_stuck st).
+  mkCs (cs_db st) (cs_conns st) (cs_clients st) (cs_wills st) rs (cs_ever st) (cs_dead st) (cs_stuck st).
 Definition set_conns (st : cstate) (cs : amap connrec) : cstate :=
-  mkCs (cs_db st) cs (cs_clients st) (cs_wills st) (cs_rs st) (cs_dead st) (cs_stuck st).
+  mkCs (cs_db st) cs (cs_clients st) (cs_wills st) (cs_rs st) (cs_ever st) (cs_dead st) (cs_stuck st).
 Definition set_clients (st : cstate) (cl : amap N) : cstate :=
-  mkCs (cs_db st) (cs_conns st) cl (cs_wills st) (cs_rs st) (cs_dead st) (cs_stuck st).
+  mkCs (cs_db st) (cs_conns st) cl (cs_wills st) (cs_rs st) (cs_ever st) (cs_dead st) (cs_stuck st).
 Definition set_wills (st : cstate) (c : N) (ws : list wcmd) : cstate :=
-  mkCs (cs_db st) (cs_conns st) (cs_clients st) (aset (cs_wills st) c ws) (cs_rs st) (cs_dead st) (cs_stuck st).
+  mkCs (cs_db st) (cs_conns st) (cs_clients st) (aset (cs_wills st) c ws) (cs_rs st) (cs_ever st) (cs_dead st) (cs_stuck st).
 Definition set_dead (st : cstate) : cstate :=
-  mkCs (cs_db st) (cs_conns st) (cs_clients st) (cs_wills st) (cs_rs st) true (cs_stuck st).
+  mkCs (cs_db st) (cs_conns st) (cs_clients st) (cs_wills st) (cs_rs st) (cs_ever st) true (cs_stuck st).
+Definition add_ever (st : cstate) (c cid : N) : cstate :=
+  mkCs (cs_db st) (cs_conns st) (cs_clients st) (cs_wills st) (cs_rs st) (aset (cs_ever st) c (cid :: evr (cs_ever st) c))
+       (cs_dead st) (cs_stuck st).
 Definition add_stuck (st : cstate) (c : N) : cstate :=
-  mkCs (cs_db st) (cs_conns st) (cs_clients st) (cs_wills st) (cs_rs st) (cs_dead st) (c :: cs_stuck st).
+  mkCs (cs_db st) (cs_conns st) (cs_clients st) (cs_wills st) (cs_rs st) (cs_ever st) (cs_dead st) (c :: cs_stuck st).
 Definition wills_of (st : cstate) (c : N) : list wcmd :=
   match aget (cs_wills st) c with Some w => w | None => [] end.
 
 (* the request body and its immediate answer; then (only if that goroutine is still alive) the wake-up pass.
-   Lemma exec_is_step (ConnProofs) : without crash/block the engine part is exactly `step db (AReq c cm)`. *)
-Definition exec_req (cf : cfg) (st : cstate) (c : N) (cm : cmd) (will : bool) : cstate * list cevent * outcome :=
+   Lemma exec_is_step (ConnProofs) : without crash/block the engine part is exactly `step db (AReq c cm)`.
+   A command naming a missing database is answered RESULT_UNKNOWN_DB on the requester's own (synchronous) path and
+   freed; the engine is not entered (ProcessParse / ProcessCommad, cases COMMAND_LOCK and COMMAND_UNLOCK). *)
+Definition exec_req (cf : cfg) (st : cstate) (c : N) (x : xcmd) (will : bool) : cstate * list cevent * outcome :=
+  let cm := x_cmd x in
+  if db_missing x then
+    let '(rs1, ce1, o1) := sync_result cf (cs_conns st) (cs_clients st) (cs_rs st) c
+                             (mkRep (c_req cm) R_UNKNOWN_DB 0 0 (c_lockid cm)) in
+    (set_rs st rs1, CNoDb c will x :: ce1, o1)
+  else
   let '(d1, ev1, w) := if c_lock cm then lock_step (cs_db st) c cm else unlock_step (cs_db st) c cm in
   let who := Some (c, c_req cm) in
   let '(rs1, ce1, o1) := route cf (cs_conns st) (cs_clients st) (cs_rs st) who ev1 in
@@ -198,17 +228,18 @@ Definition exec_req (cf : cfg) (st : cstate) (c : N) (cm : cmd) (will : bool) : 
   match o1 with
   | OOk =>
       match w with
-      | None => (st1, CEngine c will cm :: ce1, OOk)
+      | None => (st1, CEngine c will x :: ce1, OOk)
       | Some wk =>
           let '(d2, ev2) := run_wake (wake_fuel d1 (w_key wk)) d1 wk in
           let '(rs2, ce2, o2) := route cf (cs_conns st) (cs_clients st) rs1 who ev2 in
-          (set_rs (set_db st1 d2) rs2, CEngine c will cm :: ce1 ++ ce2, o2)
+          (set_rs (set_db st1 d2) rs2, CEngine c will x :: ce1 ++ ce2, o2)
       end
-  | _ => (st1, CEngine c will cm :: ce1, o1)
+  | _ => (st1, CEngine c will x :: ce1, o1)
   end.
 
 (* ------------------------------------------------------------------ Close: drain the will queue *)
-(* returns completed? = the loop ran to its end (no crash, not blocked) *)
+(* returns completed? = the loop ran to its end (no crash, not blocked).  The error ProcessCommad returns (a will whose
+   RESULT_UNKNOWN_DB answer could not be written) is discarded by Close: the loop goes on with the next command. *)
 Fixpoint run_wills (cf : cfg) (st : cstate) (c : N) (ws : list wcmd) : cstate * list cevent * bool :=
   match ws with
   | [] => (st, [], true)
@@ -230,15 +261,19 @@ Definition repoint_all (tg : amap (option N)) (c : N) : amap (option N) :=
                  | Some c' => if c' =? c then (fst kv, None) else kv
                  | None => kv end) tg.
 
-Definition will_typed (cf : cfg) (cm : cmd) : bool :=
-  if c_lock cm then negb (fix_will_lock cf) else negb (fix_will_unlock cf).
+Definition will_typed (cf : cfg) (x : xcmd) : bool :=
+  if c_lock (x_cmd x) then negb (fix_will_lock cf) else negb (fix_will_unlock cf).
+
+(* the fragment of (connection kind, command) pairs the model speaks about *)
+Definition modelled (k : kind) (x : xcmd) : bool :=
+  (x_db x =? 0) || match k with KBin => db_missing x | KText => false end.
 
 (* ------------------------------------------------------------------ actions *)
 Inductive caction :=
 | COpen (c : N) (k : kind)
 | CInit (c cid : N)
-| CReq (c : N) (cm : cmd)
-| CWill (c : N) (cm : cmd)
+| CReq (c : N) (cm : xcmd)
+| CWill (c : N) (cm : xcmd)
 | CClose (c : N)
 | CAdvance (k : Z)
 | CSweepT
@@ -281,20 +316,20 @@ Definition cstep (cf : cfg) (st : cstate) (a : caction) : cstate * list cevent :
                       else cs_clients st in
             let ity := match aget cl cid with Some _ => 1 | None => 0 end in
             let st := set_conns st (aset (cs_conns st) c (mkConn (k_kind k) true true cid)) in
-            (set_clients st (aset cl cid c), [CInitOk c ity])
+            (add_ever (set_clients st (aset cl cid c)) c cid, [CInitOk c ity])
           else (st, [])
       | None => (st, [])
       end
   | CReq c cm =>
-      if usable st c then
+      if usable st c && modelled (k_kind (conn_of (cs_conns st) c)) cm then
         let st := match k_kind (conn_of (cs_conns st) c) with
-                  | KText => set_rs st (set_await (cs_rs st) c (c_req cm))   (* lockRequestId = RequestId, 2694 / 2741 *)
+                  | KText => set_rs st (set_await (cs_rs st) c (c_req (x_cmd cm)))   (* lockRequestId = RequestId, 2694 / 2741 *)
                   | KBin => st end in
         let '(st', ev, o) := exec_req cf st c cm false in
         (match o with OCrash => set_dead st' | _ => st' end, ev)
       else (st, [])
   | CWill c cm =>
-      if usable st c then
+      if usable st c && modelled (k_kind (conn_of (cs_conns st) c)) cm then
         match k_kind (conn_of (cs_conns st) c) with
         | KBin => (set_wills st c (wills_of st c ++ [(false, cm)]), [CRegistered c cm])           (* 1476-1498 *)
         | KText => (set_wills st c (wills_of st c ++ [(will_typed cf cm, cm)]), [CRegistered c cm; CWillOk c])   (* 2678-2688, 2723-2733 *)
@@ -340,6 +375,7 @@ Fixpoint crun (cf : cfg) (st : cstate) (acts : list caction) : cstate * list (li
   end.
 
 (* wrappers for the extracted driver *)
-Definition mk_cfg (a b c d : bool) : cfg := mkCfg a b c d.
+Definition mk_cfg (a b c d e : bool) : cfg := mkCfg a b c d e.
+Definition mk_xcmd (db : N) (cm : cmd) : xcmd := mkX db cm.
 Definition conn_fields (k : connrec) : bool * bool * bool * N :=
   (match k_kind k with KBin => true | KText => false end, k_open k, k_inited k, k_cid k).
